@@ -56,6 +56,20 @@ FoldProgs ==
             o == FoldOps[((i - 1) \div (Len(SmallLits) * Len(SmallLits))) + 1]
         IN  P("fold-" \o ToString(i), Obs(Bin(o, a, b)), <<"fold", o>>)]
 
+\* folding over folded operands: negative values (unary minus / complement of a literal) against signed and unsigned
+\* literals -- the comparison / arithmetic must be done in the common type of the operands' C types
+NegLits == << Un("-", NumN(1)), Un("-", NumN(7)), Un("~", NumN(0)), Un("-", Lit(FromNat(64, 5), "dec", "LL", FALSE)), Un("-", HexN(255, "U")) >>
+MixOperands == NegLits \o << NumN(1), HexN(255, "U"), Lit(Ones(64), "hex", "ULL", FALSE), Lit(FromNat(64, 5), "dec", "LL", FALSE), NumN(0) >>
+Fold2Ops == <<"<", ">", "<=", ">=", "==", "!=", "+", "-", "*", ">>", "&">>
+Fold2All ==
+    [i \in 1..(Len(NegLits) * Len(MixOperands) * 2 * Len(Fold2Ops)) |->
+        LET n == NegLits[((i - 1) % Len(NegLits)) + 1]
+            m == MixOperands[(((i - 1) \div Len(NegLits)) % Len(MixOperands)) + 1]
+            swap == (((i - 1) \div (Len(NegLits) * Len(MixOperands))) % 2) = 1
+            o == Fold2Ops[((i - 1) \div (Len(NegLits) * Len(MixOperands) * 2)) + 1]
+        IN  P("fold2-" \o ToString(i), Obs(IF swap THEN Bin(o, m, n) ELSE Bin(o, n, m)), <<"fold2", o>>)]
+Fold2Progs == IF Tier = "thorough" THEN Fold2All ELSE SelectSeq(Fold2All, LAMBDA p : TRUE)
+
 \* constant-condition ?: : the dead arm mentions something that is used elsewhere
 Conds == << NumN(1), NumN(0), Bin("<", NumN(2), NumN(1)), Bin("==", NumN(3), NumN(3)) >>
 Things(i) == (<< Rs, Var("a"), Call("clz32", <<Rs>>), StmtExpr(<< Set(Var("a"), Bin("+", Var("a"), NumN(1))) >>, Var("a")), Imm("s"), Load(FALSE, 32, Rs) >>)[i]
@@ -71,12 +85,13 @@ CondProgs ==
 
 \* sizeof of every operand kind
 SizeofProgs ==
-    [i \in 1..10 |->
+    [i \in 1..14 |->
         LET e == (<< Rs, Rss, Reg("P", "u", FALSE, FALSE), Imm("u"), Var("a"), Var("c"), CastE(U8, Rs), Bin("+", Var("a"), Var("c")),
-                     Alias("USR", FALSE), XReg("P", 0, FALSE) >>)[i]
+                     Alias("USR", FALSE), XReg("P", 0, FALSE),
+                     Bin("==", Rs, Rt), Bin("<", Var("c"), Var("c")), Bin("&&", Var("a"), Var("c")), Un("!", Var("c")) >>)[i]
         IN  P("szof-" \o ToString(i), << Decl(S16, "a", Rt), Decl(S64, "c", Rss) >> \o Obs(SizeofE(e)) \o << Set(Rd, Var("a")) >>, <<"sizeof">>)]
 
-Programs == LitProgs \o FoldProgs \o CondProgs \o SizeofProgs
+Programs == LitProgs \o FoldProgs \o Fold2Progs \o CondProgs \o SizeofProgs
 
 VARIABLE x
 Init == x = JsonSerialize(IOEnv.GEN_OUT, Programs)
